@@ -160,6 +160,10 @@ def c15_lipschitz_no_valid_sample():
     return _nonfinite_startup("LipschitzOptimizer")
 
 
+def c15_powell_no_valid_sample():
+    return _nonfinite_startup("PowellsMethod")
+
+
 def c15_pattern_exhausted():
     return _nonfinite_startup("PatternSearch", n_positions=1)
 
